@@ -535,3 +535,28 @@ Proof. vm_compute. reflexivity. Qed.
 (* fixed: the handle still counts the address *)
 Lemma w4_fixed : w4_outcome true = (true, 1%N, 1%N).
 Proof. vm_compute. reflexivity. Qed.
+
+(* ------------------------------------------------------------------ what is proved about one model run, in one place *)
+Lemma model_meets_spec_partial : forall cf fx clients evs,
+  cf_count_requested cf = false -> cf_aip_leak cf = false -> cf_stale_cache cf = false -> cf_bsize cf <> O ->
+  Forall (fun hc => Forall (wf_op cf) (snd hc)) clients ->
+  let y := @Cas.sys_run key value lopt key_eqb key_ltb lmatch (list (op * result)) (Proofs.sys0 cf fx true clients) evs in
+  (forall e c b, In e (st_ents (sy_store y)) -> e_key e = KBlock c -> e_val e = VBlock b ->
+     bk_cidr b = c /\ NoDup (bk_unalloc b) /\ (forall o, In o (bk_unalloc b) -> owner_of b o = None)) /\
+  (forall ev, Cas.effect key_eqb key_ltb create_ok update_ok delete_ok (sy_store y)
+                (sy_store (@Cas.sys_step key value lopt key_eqb key_ltb lmatch (list (op * result)) y ev))) /\
+  (forall i l, nth_error (sy_clients y) i = Some (CRun (Ret l)) ->
+     exists H', Cas.store_hist (sy_store y) H' /\ Cas.hist_ok VI H' /\ Forall (fun p => op_post cf (fst p) H' (snd p)) l) /\
+  (forall h c, (alloc_of (sy_store y) h c <= hcnt_of (sy_store y) h c)%N) /\
+  (forall B, within_budget cf fx clients evs B ->
+     Forall (fun c => exists l, c = CRun (Ret l)) (sy_clients y) ->
+     forall h c, hcnt_of (sy_store y) h c = alloc_of (sy_store y) h c).
+Proof.
+  intros cf fx clients evs F1 F2 F3 BS WF y. split; [|split; [|split; [|split]]].
+  - intros e c b Hin EK EV.
+    destruct (reachable_blocks_single_owner cf fx true clients evs e c b Hin EK EV) as (A & B & C & _). auto.
+  - intros ev. apply reachable_step_effect.
+  - intros i l NE. apply (completed_results_recorded cf fx true clients evs i l NE).
+  - apply never_undercounts_all; auto.
+  - intros B WB DONE. eapply agrees_when_all_completed; eauto.
+Qed.
